@@ -57,6 +57,9 @@ Lexemes(fam) ==
     [] fam = "text" ->   \* every string over the meta-characters, the contextual ones, a separator and letters
          <<P(cQ), P(cSTAR), P(cDOL), P(cCOL), P(cLT), P(cGT), P(cLP), P(cRP), P(cLB), P(cRB), P(cLC), P(cRC),
            P(cCOM), P(cBS), P(cDASH), P(cBANG), P(cSEP), P(cA), P(cEAC), P(cI), P(49)>>
+    [] fam = "esc" ->   \* C18: every string over the meta-characters, the contextual ones, a separator and letters
+         <<P(cQ), P(cSTAR), P(cDOL), P(cCOL), P(cLT), P(cGT), P(cLP), P(cRP), P(cLB), P(cRB), P(cLC), P(cRC),
+           P(cCOM), P(cDASH), P(cBANG), P(cSEP), P(cA), P(cEAC)>>
     [] fam = "deep" ->
          <<P(cA), P(cSEP), Open, Comma, Close, ROpen, R12, R01>>
 
